@@ -414,6 +414,24 @@ func gen(a vh.Args) {
 			emit(s)
 		}
 	}
+	// exact reads: the consumer reads exactly what it stored and closes, no EOF probe.
+	// every payload bit of version 1 files (checked in Close only) and of a version 2 file
+	for _, c := range []fc{{1, 0, 12}, {1, 1, 6}, {2, 0, 12}} {
+		f := realFile(c.ver, c.comp, r.Bytes(c.n))
+		pieces := []string{fmt.Sprint(c.n), fmt.Sprintf("%d,%d", c.n/2, c.n/2), fmt.Sprintf("%d,%d,%d", c.n/3, c.n/3, c.n/3),
+			strings.TrimSuffix(strings.Repeat("1,", c.n), ","), fmt.Sprintf("%d,%d", 1, c.n-1), fmt.Sprintf("%d,0,%d", c.n-1, 1)}
+		var ops []string
+		for _, ps := range pieces {
+			ops = append(ops, "rs "+ps)
+		}
+		for b := 8 * 1024; b < 8*len(f); b++ {
+			ops = append(ops, fmt.Sprintf("fx %d %s", b, pieces[r.Intn(len(pieces))]))
+			if c.ver == 1 && r.Chance(1, 3) {
+				ops = append(ops, fmt.Sprintf("fx %d %s", b, pieces[r.Intn(len(pieces))]))
+			}
+		}
+		emit("RF | file " + vh.Hex(f) + " ; " + strings.Join(ops, " ; "))
+	}
 	// tail sweep: payload lengths 2^k-4 (last block 2^k bytes on disk) and neighbours
 	tails := []int{0, 12, 28, 60, 124, 13}
 	if a.Tier == "thorough" {
